@@ -73,6 +73,9 @@ def run(chk: Check):
     ints = [comp_driver.int_param_trace(chk.seed + s) for s in range(2 if chk.quick else 10)]
     chk.extra["int_param_states_refused"] = sum(1 for t in ints if t["hdr"]["refused"])
     chk.tv("Trace_Composition.tla", ints, tag="int_params", keyfn=lambda r: f"real:{r.trace['hdr']['model']}:{r.conjunct}")
+    # a position key that names a node and also (another) variable: the node is meant, for reading and writing alike
+    cl = [comp_driver.clash_trace(chk.seed + s) for s in range(2 if chk.quick else 8)]
+    chk.tv("Trace_Composition.tla", cl, tag="name_clash", keyfn=lambda r: f"real:{r.trace['hdr']['model']}:{r.conjunct}")
     # the legacy probability-integral-transform node inside the interface's model copy
     pits = [comp_driver.pit_trace(chk.seed + s) for s in range(2 if chk.quick else 10)]
     chk.tv("Trace_Composition.tla", pits, tag="legacy_pit", keyfn=lambda r: f"real:{r.trace['hdr']['model']}:{r.conjunct}")
@@ -117,7 +120,10 @@ def _glue(chk, rng):
 
 def replay(chk: Check, data):
     tr = data["replay"]["trace"]
-    if "pit" in tr["hdr"]:
+    if "clash" in tr["hdr"]:
+        chk.tv("Trace_Composition.tla", [comp_driver.clash_trace(**tr["hdr"]["clash"])], tag="name_clash",
+               keyfn=lambda r: f"real:{r.trace['hdr']['model']}:{r.conjunct}")
+    elif "pit" in tr["hdr"]:
         chk.tv("Trace_Composition.tla", [comp_driver.pit_trace(**tr["hdr"]["pit"])], tag="legacy_pit",
                keyfn=lambda r: f"real:{r.trace['hdr']['model']}:{r.conjunct}")
     elif "int_param" in tr["hdr"]:
